@@ -749,6 +749,12 @@ class CompositeCanvas(Canvas):
             self.shards = shards_trim_rows(self.shards, count)
 
         self.coords = self.translate_coords(0, -top)
+        self._drop_outside_cursor()
+
+    def _drop_outside_cursor(self) -> None:
+        c = self.coords.get("cursor")
+        if c is not None and not (0 <= c[0] < self.cols() and 0 <= c[1] < self.rows()):
+            self.coords = {k: v for k, v in self.coords.items() if k != "cursor"}
 
     def trim_end(self, end: int) -> None:
         """Trim lines from the bottom of the canvas.
@@ -763,6 +769,7 @@ class CompositeCanvas(Canvas):
             raise self._finalized_error
 
         self.shards = shards_trim_rows(self.shards, self.rows() - end)
+        self._drop_outside_cursor()
 
     def pad_trim_left_right(self, left: int, right: int) -> None:
         """
@@ -793,6 +800,8 @@ class CompositeCanvas(Canvas):
 
         self.coords = self.translate_coords(left, 0)
         self.shards = shards
+        if left < 0 or right < 0:
+            self._drop_outside_cursor()
 
     def pad_trim_top_bottom(self, top: int, bottom: int) -> None:
         """
